@@ -9,6 +9,7 @@ import Req.H2.WriteBlock
 import Req.H2.FrameRfc
 import Req.H3.Stream
 import Req.H2.Hpack
+import Req.H2.WriteSeq
 import Req.Driver.WireUtil
 /-! Driver lanes of C05 (HTTP/2 framer, QUIC varints, HTTP/3 frames/SETTINGS/field sections). -/
 namespace Req.Driver.L.C05
@@ -556,7 +557,100 @@ def laneH2Verdict : List String → String
   | _ => "bad-op"
 end verdict
 
+/-! ### call SEQUENCES on one Framer (write state machine) and their read-back -/
+section wseq
+open Req.H2.Frame
+
+def parseSink (s : String) : Option Sink :=
+  if s == "f" then some .full
+  else if s.startsWith "s" then (s.drop 1).toNat?.map .short
+  else if s.startsWith "e" then (s.drop 1).toNat?.map .fail
+  else none
+
+def padOpt (s : String) : Option (Option Bytes) :=
+  if s == "nil" then some none else (decodeHex s).map some
+
+/-- one operation: the argument lists of the single-call write lanes, `/`-separated. -/
+def parseWOp : List String → Option WOp
+  | ["data", sid, e, d, pad] => do
+    pure (.data (← sid.toNat?) (← bool? e) (← decodeHex d) (← padOpt pad))
+  | ["headers", sid, es, eh, pl, dep, ex, w, frag] => do
+    pure (.headers ⟨← sid.toNat?, ← decodeHex frag, ← bool? es, ← bool? eh, ← pl.toNat?,
+      ⟨← dep.toNat?, ← bool? ex, ← w.toNat?⟩⟩)
+  | ["priority", sid, dep, ex, w] => do
+    pure (.priority (← sid.toNat?) ⟨← dep.toNat?, ← bool? ex, ← w.toNat?⟩)
+  | ["rst", sid, c] => do pure (.rstStream (← sid.toNat?) (← c.toNat?))
+  | ["settings", ss] => do pure (.settings (← parsePairs ss))
+  | ["settingsack"] => some .settingsAck
+  | ["pp", sid, pid, eh, pl, f] => do
+    pure (.pushPromise ⟨← sid.toNat?, ← pid.toNat?, ← decodeHex f, ← bool? eh, ← pl.toNat?⟩)
+  | ["ping", a, d] => do pure (.ping (← bool? a) (← decodeHex d))
+  | ["goaway", m, c, d] => do pure (.goAway (← m.toNat?) (← c.toNat?) (← decodeHex d))
+  | ["wu", sid, i] => do pure (.windowUpdate (← sid.toNat?) (← i.toNat?))
+  | ["cont", sid, eh, f] => do pure (.continuation (← sid.toNat?) (← bool? eh) (← decodeHex f))
+  | ["raw", t, fl, sid, p] => do
+    pure (.raw (← t.toNat?) (← fl.toNat?) (← sid.toNat?) (← decodeHex p))
+  | _ => none
+
+/-- `<allow 0/1>/<sink f|s<n>|e<n>>/<op>/<args…>` -/
+def parseCall (s : String) : Option Call :=
+  match s.splitOn "/" with
+  | a :: k :: op => do pure { allow := ← bool? a, sink := ← parseSink k, op := ← parseWOp op }
+  | _ => none
+
+def parseCalls (s : String) : Option (List Call) :=
+  if s == "-" then some [] else (s.splitOn ";").mapM parseCall
+
+def showWRes : WRes → String
+  | .ok => "ok"
+  | .refused e => showW (.error e)
+  | .shortWrite => "short"
+  | .sinkError => "sinkerr"
+
+def showReads (l : List (Except RErr Frame)) : String :=
+  if l.isEmpty then "-" else ";".intercalate (l.map showRes)
+
+/-- `c05wseq <maxReadSize> <call>;<call>…` : the calls run IN SEQUENCE on one `Writer` (the state
+machine of `Req.H2.WriteSeq`, `wbuf` carried from call to call) → `<result>,<result>… <bytes that
+reached the connection> <those bytes read back by readAll>`. -/
+def laneWSeq : List String → String
+  | [m, cs] => match m.toNat?, parseCalls cs with
+    | some m, some calls =>
+      let (rs, w) := runCalls {} calls
+      let r : Reader := { maxReadSize := setMaxReadFrameSize m }
+      sp [if rs.isEmpty then "-" else ",".intercalate (rs.map showWRes), encodeHex w.out,
+          showReads (readAll (w.out.length / 9 + 2) r w.out)]
+    | _, _ => "bad-op"
+  | _ => "bad-op"
+
+instance (a : WOp) : Decidable a.Wf := by
+  cases a <;> simp only [WOp.Wf] <;> infer_instance
+
+/-- `c05rseq <maxReadSize> <call>;<call>…` : the SPECIFICATION side of `framer_write_read_sequence`,
+computed from the operations (never from bytes): `readSpec 0` of the accepted calls, then `eof` when
+the order automaton accepted them all. `not-plain` / `not-wf` / `not-fit` when a hypothesis of the
+theorem does not hold for the case. -/
+def laneRSeq : List String → String
+  | [m, cs] => match m.toNat?, parseCalls cs with
+    | some m, some calls =>
+      let maxRead := setMaxReadFrameSize m
+      if !calls.all (fun c => !c.allow && c.sink == .full) then "not-plain"
+      else
+        let ops := (calls.filter Call.accepted).map (·.op)
+        if !ops.all (fun a => decide a.Wf) then "not-wf"
+        else if !ops.all (fun a => a.payload.length ≤ maxRead) then "not-fit"
+        else
+          let spec := readSpec 0 ops
+          showReads (match runOrder 0 (ops.map WOp.hdr) with
+            | some _ => spec ++ [.error .eof]
+            | none => spec)
+    | _, _ => "bad-op"
+  | _ => "bad-op"
+end wseq
+
 def lanes : List (String × (List String → String)) := [
+  ("c05wseq", laneWSeq),
+  ("c05rseq", laneRSeq),
   ("c05emit", laneEmit),
   ("c05reqsec", laneReqSec),
   ("c05wblock", laneWBlock),
